@@ -3,8 +3,11 @@
 package refsem
 
 import (
+	"encoding/json"
+	"fmt"
 	"reflect"
 	"strconv"
+	"strings"
 
 	"github.com/bmeg/grip/gripql"
 )
@@ -158,4 +161,31 @@ func Has(e *gripql.HasExpression, lookup func(key string) any) Tri {
 		return True
 	}
 	return Undefined
+}
+
+// HasString renders a has-expression completely (gripql.HasExpressionString drops the operator and
+// prints nothing for and/or/not), e.g. and(not(INSIDE(f,[-1,1])),EQ(f,null)).
+func HasString(e *gripql.HasExpression) string {
+	if e == nil {
+		return "<nil>"
+	}
+	join := func(l []*gripql.HasExpression) string {
+		var s []string
+		for _, x := range l {
+			s = append(s, HasString(x))
+		}
+		return strings.Join(s, ",")
+	}
+	switch x := e.Expression.(type) {
+	case *gripql.HasExpression_And:
+		return "and(" + join(x.And.GetExpressions()) + ")"
+	case *gripql.HasExpression_Or:
+		return "or(" + join(x.Or.GetExpressions()) + ")"
+	case *gripql.HasExpression_Not:
+		return "not(" + HasString(x.Not) + ")"
+	case *gripql.HasExpression_Condition:
+		v, _ := json.Marshal(x.Condition.GetValue().AsInterface())
+		return fmt.Sprintf("%s(%s,%s)", x.Condition.GetCondition(), x.Condition.GetKey(), v)
+	}
+	return "<empty>"
 }
